@@ -1,6 +1,8 @@
 """C12 -- descriptive statistics follow their textbook definitions (Props/C12.v)."""
 import math
+import random as _random
 import warnings
+from decimal import Decimal
 from fractions import Fraction
 
 import numpy as np
@@ -19,14 +21,121 @@ def coltype(kind):
     return {'KMixed': MixedColumn, 'KFloat': FloatColumn, 'KInt': IntColumn}[kind]
 
 
-# ---------------------------------------------------------------- reference evaluation (exact, Fractions)
+def kind_of(col):
+    from datamatrix import MixedColumn, FloatColumn, IntColumn
+    for k, t in (('KMixed', MixedColumn), ('KFloat', FloatColumn), ('KInt', IntColumn)):
+        if type(col) is t:
+            return k
+    raise Unclassified('column of type %s' % type(col).__name__)
+
+
+class Unclassified(Exception):
+    """a cell / column outside the classified universe: the case is dropped (never judged)"""
+
+
+class ReadFailed(Exception):
+    """reading a statistic raised"""
+
+
+# ---------------------------------------------------------------- cells: classification (Spec/Stats.v xcell)
+# A column's own type check stores int / float / str / None.  A MixedColumn can also hold what was stored without the
+# check (the result columns of `col @ f` / map_ and of column arithmetic, their slices and selections, a derived column
+# inserted by reference where _set_col does that, what << copies from such a column).
+# L0 classification ("the column's numeric non-NaN cells"): a cell is numeric iff it is a real number of Python's numeric tower: int and its subclass bool (True = 1, False = 0), float, NumPy integer / floating
+# scalars, Fraction, finite Decimal -- with its exact value.
+def cell_q(x):
+    """the exact rational value of a numeric, finite, non-NaN cell; None for every other cell"""
+    if type(x) is bool:
+        return Fraction(int(x))
+    if type(x) is int:
+        return Fraction(x)
+    if isinstance(x, np.integer):
+        return Fraction(int(x))
+    if type(x) is float or isinstance(x, np.floating):
+        f = float(x)
+        return None if (math.isnan(f) or math.isinf(f)) else Fraction(f)
+    if type(x) is Fraction:
+        return x
+    if type(x) is Decimal:
+        return Fraction(x) if x.is_finite() else None
+    return None
+
+
+def cell_inf(x):
+    return (type(x) is float or isinstance(x, np.floating)) and math.isinf(float(x))
+
+
 def is_num(x):
-    return type(x) in (int, float) and not (type(x) is float and (math.isnan(x) or math.isinf(x)))
+    return cell_q(x) is not None
 
 
+def xcell(x):
+    """Coq literal of type xcell"""
+    if x is None or type(x) in (int, float, str):
+        return '(XV %s)' % pyobs.val(x)
+    if type(x) is bool:
+        return '(XBool %s)' % L.boolean(x)
+    if isinstance(x, np.integer):
+        return '(XNpInt %s)' % L.z(int(x))
+    if isinstance(x, np.floating) and type(x) in (np.float64, np.float32, np.float16):
+        return '(XNpFlt %s %s)' % (L.boolean(isinstance(x, float)), L.fl(float(x)))
+    if type(x) is Fraction or (type(x) is Decimal and x.is_finite()):
+        q = Fraction(x)
+        return '(XRat (qc %s %d))' % (L.z(q.numerator), q.denominator)
+    raise Unclassified('cell %r of type %s' % (x, type(x).__name__))
+
+
+def cells_lit(cells):
+    return L.lst([xcell(c) for c in cells])
+
+
+def enc_cell(x):
+    if x is None or type(x) in (bool, int, float, str) or isinstance(x, (np.integer, np.floating)):
+        return pyobs.enc(x)
+    if type(x) is Fraction:
+        return {'t': 'Fraction', 'v': '%d/%d' % (x.numerator, x.denominator)}
+    if type(x) is Decimal:
+        return {'t': 'Decimal', 'v': str(x)}
+    return {'t': type(x).__name__, 'v': repr(x)}
+
+
+def enc_x(v):
+    """JSON-able encoding of an operand / written value (pyobs.enc plus Fraction / Decimal)"""
+    if type(v) is Fraction:
+        return {'t': 'Fraction', 'v': '%d/%d' % (v.numerator, v.denominator)}
+    if type(v) is Decimal:
+        return {'t': 'Decimal', 'v': str(v)}
+    return pyobs.enc(v)
+
+
+def dec_x(d):
+    if d['t'] == 'Fraction':
+        return Fraction(d['v'])
+    if d['t'] == 'Decimal':
+        return Decimal(d['v'])
+    return pyobs.dec(d)
+
+
+def plain(x):
+    if isinstance(x, np.floating):
+        return float(x)
+    if isinstance(x, np.integer):
+        return int(x)
+    return x
+
+
+def enc_list(cells):
+    return [pyobs.enc(c) for c in cells]
+
+
+def dec_list(cells):
+    return [pyobs.dec(c) for c in cells]
+
+
+# ---------------------------------------------------------------- reference evaluation (exact, Fractions)
 def nums_l0(cells):
     """the numeric, finite, non-NaN cells, exactly"""
-    return [Fraction(x) for x in cells if is_num(x)]
+    return [q for q in (cell_q(x) for x in cells) if q is not None]
 
 
 def nums_l1(kind, cells):
@@ -86,11 +195,14 @@ def isqrt_frac(q):
     return None
 
 
+def normal_range(l):
+    return all(representable(x) for x in l) and \
+        not any(x != 0 and not (Fraction(1, 2 ** 900) <= abs(x) <= 2 ** 900) for x in l)
+
+
 def exact_flag(stat, l):
     """True only if every floating-point operation of the computation is exact on l (conservative)."""
-    if not all(representable(x) for x in l):
-        return False
-    if any(x != 0 and not (Fraction(1, 2 ** 900) <= abs(x) <= 2 ** 900) for x in l):
+    if not normal_range(l):
         return False
     n = len(l)
     ref = textbook(stat, l)
@@ -121,18 +233,79 @@ def exact_flag(stat, l):
     return representable(ref) and r is not None and representable(r)
 
 
+def rounded_flag(stat, l):
+    """True only if the computation is ONE correctly rounded IEEE operation on exactly computed operands (conservative):
+    the result is then within half a unit in the last place of the textbook rational.
+    mean: every partial sum exact, then one division by n.  median (even n): .5*a + .5*b (exact halves, one rounded
+    addition) resp. NumPy (a + b) / 2 (one rounded addition, exact halving).  Values in the normal range only."""
+    if not normal_range(l) or not l:
+        return False
+    if stat == 'Mean':
+        return subset_sums_exact(l)
+    if stat == 'Median':
+        return True
+    return False
+
+
+def mode_of(stat, l):
+    """how the returned float is compared inside Coq: MExact (equal to the rational), MHalfUlp (within half a unit in the
+    last place of the returned float), MFinite (finite; the tolerance comparison is made on the Python side)"""
+    if exact_flag(stat, l):
+        return 'MExact'
+    if rounded_flag(stat, l):
+        return 'MHalfUlp'
+    return 'MFinite'
+
+
+def half_ulp_ok(x, q):
+    """|x - q| <= ulp(x) / 2 for the float x and the rational q (exact arithmetic)"""
+    if x == 0.0:
+        return q == 0
+    m, e = math.frexp(abs(x))        # |x| = m * 2**e, 0.5 <= m < 1: unit in the last place 2**(e-53)
+    return abs(Fraction(x) - q) * 2 <= Fraction(2) ** (e - 53)
+
+
 def within(stat, impl, ref, l):
-    """|impl - textbook| <= 1e-9 * max(|textbook|, max|x|), exact rational arithmetic.
-    Var (impl is the std): |impl - sqrt(ref)| <= 1e-9 * sqrt(ref) + 1e-12 * max|x|.  The second term covers what a
-    backward-stable evaluation cannot avoid (perturbing the inputs by one ulp moves the std by ~1e-16 * max|x|; the
-    two-pass formula stays within ~n * 1e-16 * max|x|), with a margin of > 100 for n <= 40."""
+    """|impl - textbook| <= min(1e-9 * max(|textbook|, max|x|), rounding-error bound of the statistic), exact rational
+    arithmetic.  Var (impl is the std, s = sqrt(ref)): |impl - s| <= 1e-9 * s + 2 * min(1.5 * d, d^2 / s)  with  d = n * 2^-52 * max|x|.
+    The second term is what a two-pass evaluation (mean first, then the squared deviations from it) cannot avoid:
+    the computed mean is off by at most dm <= n * 2^-53 * max|x| (any summation order), the deviations from the
+    COMPUTED mean have the sum of squares  sum (x_i - m)^2 + n * dm^2  exactly, so the computed variance is
+    (var + n/(n-1) * dm^2) * (1 + theta), |theta| < 1e-14, and sqrt(var + 2 dm^2) - s <= min(sqrt(2) * dm, dm^2 / s).
+    It is first order in max|x| only when the spread is below the rounding of the mean, second order otherwise
+    (ms timestamps 1.7e12 a few ms apart: 1e-7 absolute on a std of 13), with a margin of >= 8 on d^2.
+    Measured on the unchanged tree (15000 columns, offsets 1e6..1.4e16, n <= 40, three column types): the largest
+    |impl - s| / tolerance is 0.1."""
     x = Fraction(impl)
     big = max([abs(v) for v in l] + [0])
     if stat == 'Var':
-        tol = TOL * Fraction(math.sqrt(float(ref))) * (1 + TOL) + Fraction(1, 10 ** 12) * big
+        s = Fraction(math.sqrt(float(ref)))
+        d = len(l) * Fraction(1, 2 ** 52) * big
+        if s == 0 or not all(representable(v) for v in l):
+            # cells that are not binary64 values (ints beyond 2^53, Fractions, Decimals) are rounded on the way in: each by
+            # at most 2^-53 |x|, which moves the std by at most sqrt(n/(n-1)) * 2^-53 * max|x|: first-order bound
+            extra = 3 * d + Fraction(1, 2 ** 52) * big
+        else:
+            extra = 2 * min(Fraction(3, 2) * d, d * d / s)
+        tol = TOL * s * (1 + TOL) + extra
         lo = x - tol
         return x >= 0 and (lo <= 0 or lo * lo <= ref) and ref <= (x + tol) ** 2
-    tol = TOL * max(abs(ref), big)
+    # rounding-error bounds that hold for every summation order (recursive, pairwise, compensated), u = 2^-53, each with
+    # a factor 2 in hand; cells that are not binary64 values are rounded by at most u |x| on the way in (the "+1"):
+    #   sum: (n+1) u sum|x_i|;  mean: that / n plus the division;  median: two roundings of the inputs, one of the
+    #   addition;  min / max: the rounding of the input.  Never looser than 1e-9 relative.
+    u2 = Fraction(1, 2 ** 52)
+    n = len(l)
+    tot = sum((abs(v) for v in l), Fraction(0))
+    if stat == 'Sum':
+        tol = (n + 1) * u2 * tot
+    elif stat == 'Mean':
+        tol = (n + 1) * u2 * tot / n + u2 * abs(ref)
+    elif stat == 'Median':
+        tol = 4 * u2 * big
+    else:
+        tol = u2 * big
+    tol = min(tol, TOL * max(abs(ref), big))
     return abs(x - ref) <= tol
 
 
@@ -143,30 +316,248 @@ def claim(q):
     return '(CVal (qc %s %d))' % (L.z(q.numerator), q.denominator)
 
 
-def cells_lit(cells):
-    out = []
-    for c in cells:
-        v = pyobs.val(c)
-        if v is None:
-            raise ValueError('cell of unexpected type %r' % (c,))
-        out.append(v)
-    return L.lst(out)
+# ---------------------------------------------------------------- functions mapped over a column (`col @ f`, map_)
+def _fin(v):
+    return (type(v) in (int, float) or isinstance(v, (np.integer, np.floating))) and v == v and abs(v) != float('inf')
 
 
-def plain(x):
-    if isinstance(x, np.floating):
-        return float(x)
-    if isinstance(x, np.integer):
-        return int(x)
-    return x
+def _f32(v):
+    if type(v) in (int, float) and v == v and abs(v) < 1e30:
+        return np.float32(v)
+    return v
 
 
-def enc_list(cells):
-    return [pyobs.enc(c) for c in cells]
+def _dec(v):
+    if type(v) is int and abs(v) < 10 ** 20:
+        return Decimal(v) / 4
+    if type(v) is float and v == v and 1e-6 < abs(v) < 1e15:
+        return Decimal(repr(v))
+    return v
 
 
-def dec_list(cells):
-    return [pyobs.dec(c) for c in cells]
+FUNCS = {
+    'npabs': lambda v: np.abs(v) if _fin(v) else v,                                   # np.int64 / np.float64
+    'npint64': lambda v: np.int64(v) if type(v) is int and abs(v) < 2 ** 62 else v,
+    'npint32': lambda v: np.int32(v) if type(v) is int and abs(v) < 2 ** 31 else v,
+    'npfloat64': lambda v: np.float64(v) if type(v) in (int, float) and abs(v) < 2 ** 53 else v,   # NaN stays a NaN object
+    'npfloat32': _f32,
+    'npround': lambda v: np.round(v) if type(v) is float else v,                      # np.float64, incl. NaN
+    'frac3': lambda v: (Fraction(int(v)) if type(v) is int else Fraction(float(v))) / 3 if _fin(v) else v,
+    'frac': lambda v: Fraction(v) if type(v) is int else v,                          # only the ints become Fractions
+    'dec': _dec,
+    'pos': lambda v: bool(v > 0) if _fin(v) else v,
+    'even': lambda v: v % 2 == 0 if type(v) is int else v,                            # only the ints become bools
+    'neg': lambda v: -v if _fin(v) else v,
+    'half': lambda v: v / 2 if _fin(v) else v,
+    'sq': lambda v: v * v if _fin(v) and abs(v) < 1e50 else v,
+    'tofloat': lambda v: float(v) if _fin(v) else v,
+    'ident': lambda v: v,
+    'none_neg': lambda v: None if _fin(v) and v < 0 else v,
+    'str': lambda v: str(v),
+}
+EXOTIC = ['npabs', 'npint64', 'npint32', 'npfloat64', 'npfloat32', 'npround', 'frac3', 'frac', 'dec', 'pos', 'even']
+PLAINF = ['neg', 'half', 'sq', 'tofloat', 'ident', 'none_neg', 'str']
+ARITH = {'+': lambda a, b: a + b, '-': lambda a, b: a - b, '*': lambda a, b: a * b, '/': lambda a, b: a / b}
+
+
+# A finding about the UNCHANGED tree, kept out of the default stream until the coordinator decides: a MixedColumn holding
+# decimal.Decimal cells (stored unchecked by `col @ f`) next to a float NaN: `unique` and `count` raise
+# decimal.InvalidOperation, because sorted() compares a Decimal with the NaN and py3compat.safe_sorted only falls back
+# on TypeError.  (mean / median / std / min / max / sum are right on such a column.)
+INCLUDE_PENDING_FINDINGS = False
+
+
+def pending_finding_state(col):
+    cells = [x for x in col]
+    return any(type(x) is Decimal for x in cells) and \
+        any((type(x) is float or isinstance(x, np.floating)) and x != x for x in cells)
+
+
+class Runner:
+    """executes a program (list of JSON-able steps) on the implementation; the column under test lives in self.dm
+    under self.wname (target of the modifications) and is read through self.rname (an alias, or the same name), or
+    is a free column (a slice / a mapped column that was not inserted)"""
+
+    def __init__(self, kind, vals):
+        from datamatrix import DataMatrix, IntColumn
+        n = len(vals)
+        dm = DataMatrix(length=n)
+        dm.k = IntColumn
+        if n:
+            dm.k = list(range(n))
+        dm.c = coltype(kind)
+        if n:
+            dm.c = list(vals)
+        self.dm, self.wname, self.rname, self.free = dm, 'c', 'c', None
+        self.readings = []
+
+    def wcol(self):
+        return self.free if self.free is not None else self.dm[self.wname]
+
+    def rcol(self):
+        return self.free if self.free is not None else self.dm[self.rname]
+
+    def put(self, col):
+        self.dm[self.wname] = col
+
+    def read(self, record=True):
+        col = self.rcol()
+        kind = kind_of(col)
+        try:
+            obs = {}
+            for s in STATS:
+                obs[s] = float(getattr(col, ATTR[s]))
+            u = list(col.unique)
+            cnt = int(col.count)
+        except Exception as e:          # noqa: BLE001
+            raise ReadFailed('%s: reading the statistics of a column holding %r raised %r' % (
+                kind, [x for x in col][:12], e))
+        cells = [x for x in col]
+        if kind != 'KMixed':
+            cells = [plain(x) for x in cells]
+            u = [plain(x) for x in u]
+        if record:
+            self.readings.append((kind, cells, obs, u, cnt))
+
+    def apply(self, op):
+        from datamatrix import DataMatrix, IntColumn, operations as ops, functional as fnc
+        o = op[0]
+        dm = self.dm
+        if o == 'read':
+            self.read()
+        elif o == 'map':                  # dm.c = dm.c @ f : the derived column is assigned (by reference before the repair of _set_col)
+            self.put(self.wcol() @ FUNCS[op[1]])
+        elif o == 'map_':
+            self.put(fnc.map_(FUNCS[op[1]], self.wcol()))
+        elif o == 'mapfree':              # the mapped column itself, never inserted
+            self.free = self.rcol() @ FUNCS[op[1]]
+        elif o == 'farith':               # the free column col + x / x + col (results stored unchecked, never inserted)
+            x = dec_x(op[3])
+            c = self.rcol()
+            self.free = ARITH[op[1]](c, x) if op[2] == 'l' else ARITH[op[1]](x, c)
+        elif o == 'arith':                # dm.c = dm.c + x / x + dm.c
+            x = dec_x(op[3])
+            c = self.wcol()
+            self.put(ARITH[op[1]](c, x) if op[2] == 'l' else ARITH[op[1]](x, c))
+        elif o == 'iop':                  # dm.c += x
+            x = dec_x(op[2])
+            c = self.wcol()
+            if op[1] == '+':
+                c += x
+            elif op[1] == '-':
+                c -= x
+            elif op[1] == '*':
+                c *= x
+            else:
+                c /= x
+            self.put(c)
+        elif o == 'select':               # dm = dm.k >= t
+            self.dm = (dm.k >= op[1]) if op[2] == 'ge' else (dm.k < op[1])
+        elif o == 'setop':
+            a, b = dm.k >= op[2], dm.k < op[3]
+            self.dm = (a | b) if op[1] == '|' else (a & b) if op[1] == '&' else (a ^ b)
+        elif o == 'sort':
+            self.dm = ops.sort(dm, by=dm[self.rname if op[1] == 'c' else 'k'])
+        elif o == 'shuffle':
+            st = _random.getstate()
+            _random.seed(op[1])
+            try:
+                self.dm = ops.shuffle(dm)
+            finally:
+                _random.setstate(st)
+        elif o == 'slice':
+            self.dm = dm[op[1]:op[2]]
+        elif o == 'rows':
+            self.dm = dm[list(op[1])]
+        elif o == 'colslice':
+            self.free = self.rcol()[op[1]:op[2]]
+        elif o == 'colrows':
+            self.free = self.rcol()[list(op[1])]
+        elif o == 'colsel':               # dm.c[dm.k >= t]
+            self.free = self.rcol()[dm.k >= op[1]]
+        elif o == 'resize':
+            dm.length = op[1]
+        elif o == 'delrow':
+            del dm[op[1]]
+        elif o == 'concat':               # dm << dm2 (same column names and types)
+            k2 = kind_of(self.wcol())
+            v2 = dec_list(op[1])
+            dm2 = DataMatrix(length=len(v2))
+            dm2.k = IntColumn
+            dm2.k = [1000 + i for i in range(len(v2))]
+            dm2[self.wname] = coltype(k2)
+            dm2[self.wname] = v2
+            if op[2]:
+                dm2[self.wname] = dm2[self.wname] @ FUNCS[op[2]]
+            if self.rname != self.wname:
+                dm2[self.rname] = dm2[self.wname]
+            self.dm = (dm << dm2) if op[3] == 'after' else (dm2 << dm)
+        elif o == 'rename':
+            dm.rename(self.wname, op[1])
+            if self.rname == self.wname:
+                self.rname = op[1]
+            self.wname = op[1]
+        elif o == 'alias':                # dm.b = dm.c : one column object under two names
+            dm[op[1]] = dm[self.wname]
+            if op[2] == 'read-alias':
+                self.rname = op[1]
+            else:
+                self.rname, self.wname = self.wname, op[1]
+        elif o == 'copy':
+            self.dm = dm[:]
+        elif o == 'set':
+            path, where, v = op[1], op[2], pyobs.dec(op[3])
+            col = self.wcol()
+            if path == 'int':
+                col[where] = v
+            elif path == 'slice':
+                col[where[0]:where[1]] = v
+            elif path == 'list':
+                col[list(where)] = v
+            elif path == 'sel':
+                col[dm.k >= where] = v
+            elif path == 'row':
+                setattr(dm[where], self.wname, v)
+            elif path == 'all':
+                col[:] = v
+            elif path == 'allk':          # col[:] = other_col
+                col[:] = dm.k
+            elif path == 'array':
+                col[:] = np.array([v] * len(col))
+            else:
+                raise AssertionError(path)
+        elif o == 'whole':                # dm.c = [...]
+            self.dm[self.wname] = dec_list(op[1])
+        elif o == 'wholescalar':          # dm.c = v
+            self.dm[self.wname] = pyobs.dec(op[1])
+        elif o == 'wholecol':             # dm.c = dm.k (by reference) / dm.c = dm.k[:] / dm.c = dm.k + 0
+            src = dm.k if op[1] == 'ref' else dm.k[:] if op[1] == 'copy' else dm.k * 1
+            self.dm[self.wname] = src
+        elif o == 'recreate':             # del dm.c ; dm.c = <type> ; dm.c = [...] : a new column under the old name
+            del dm[self.wname]
+            dm[self.wname] = coltype(op[1])
+            if len(dm):
+                dm[self.wname] = dec_list(op[2])
+            if self.rname != self.wname and self.rname not in dm:
+                self.rname = self.wname
+        elif o == 'retype':               # dm.c = <type> : the column is replaced by an empty one of that type
+            dm[self.wname] = coltype(op[1])
+        elif o == 'replace':
+            self.put(ops.replace(self.wcol(), {pyobs.dec(op[1]): pyobs.dec(op[2])}))
+        else:
+            raise AssertionError(op)
+
+
+def run_program(kind, vals, prog):
+    """-> list of readings (the last one is the final reading).  Raises ReadFailed / Unclassified / any exception
+    of a building step."""
+    with warnings.catch_warnings():
+        warnings.simplefilter('ignore')
+        r = Runner(kind, vals)
+        for op in prog:
+            r.apply(op)
+        r.read()
+    return r.readings
 
 
 class C12:
@@ -183,12 +574,24 @@ class C12:
             'a MixedColumn interleaved with strings, None and NaN, in a FloatColumn (strings/None become NaN) and, '
             'when all numbers are ints, in an IntColumn, each in up to 4 row orders (as generated, reversed, sorted, '
             'shuffled); all lists of length <= 2 (thorough: <= 3) over a 7-value alphabet; arithmetic progressions '
-            'and constant lists whose standard deviation is an exactly representable rational; a stream with '
-            'infinities (outside the quantifier: only unique/count are judged); columns whose statistics are read, which are '
-            'then modified through int / slice / index-list / selection / row / whole-column assignment (1-3 edits, '
-            'statistics read before each) and read again (must describe the current cells). All seven statistics + unique + count '
-            'are read for every case. non-trivial = at least two numbers or at least one ignored cell; distinct by '
-            '(kind, stored cells)')
+            'and constant lists whose standard deviation is an exactly representable rational; large offset / small '
+            'spread data (1e6..1e12 + 0..100, 1e8+{0,1,2,3}, ms timestamps ~1.7e12, values near -2^40, mixed '
+            'magnitudes) in all three column types with cross-type agreement; a stream with '
+            'infinities (outside the quantifier: only unique/count are judged). '
+            'Columns are built by PROGRAMS executed on the implementation: plain assignment; `dm.c = dm.c @ f`, map_ '
+            'and FREE columns (`col @ f`, `col + x` with NumPy / Fraction / bool operands, column slices and selections, never '
+            'inserted: since the repair of DataMatrix._set_col only these keep unchecked cells), further mapped, sliced, '
+            'selected, computed with and written to; f returning NumPy int64/int32/float64/float32 scalars, Fractions, Decimals, '
+            'bools, plain numbers, None, strings (a MixedColumn stores these results unchecked); column arithmetic '
+            '(both operand orders) and in-place operators; row selection, &|^ of selections, sort, shuffle, slices, '
+            'index lists, column slices / selections, resize (grow and shrink), `<<` with a second table (either '
+            'order, mapped or not), delete row, rename, alias (`dm.b = dm.c`, written through one name and read '
+            'through the other), copy, replace; cell writes through int / slice / index-list / selection / Row / '
+            '`col[:] = v` / `col[:] = other column` / NumPy array / whole-column list, scalar and column (by '
+            'reference, copied, derived) assignment; delete-and-recreate and re-typing under the same name.  Sequence programs read all statistics + unique + count, apply '
+            '1-3 of these modifications, and read again after each: EVERY reading is judged against the cells the '
+            'column holds at that moment. non-trivial = at least two numbers or at least one ignored cell in the '
+            'final reading; distinct by (kind, program, cells of every reading)')
     trusted_base = [
         'Coq 8.16.1 kernel (coqc; vm_compute for evaluating cases; no native_compute); stdlib QArith/Qcanon',
         'translator /verif/translate (py2coq.py, pystmt.py, gen_stats.py, gen_checktype.py): BaseColumn._numbers, '
@@ -197,17 +600,33 @@ class C12:
         'hand-written models of Python sum/sorted/max/min/list indexing on rationals (Base/QcPy.v) and of float() '
         '(Base/PyVal.v round53); NumPy nanmean/nanmedian/nanstd/nanmax/nanmin/nansum/unique modelled as '
         '"drop NaN, then the textbook function" (NumPy trusted), math.sqrt as the non-negative root',
-        'harness/c12.py: generator, Fraction reference evaluation (checked equal to the Coq rationals case by case), '
+        'harness/c12.py: generator, program interpreter, classification of the cells read back into Spec/Stats.v '
+        'xcell, Fraction reference evaluation (checked equal to the Coq rationals case by case), '
         'tolerance comparison, exactness classification; harness/pyobs.py, coqlit.py literal printers',
     ]
     assumptions = [
         'IEEE rounding is not modelled: the model computes with exact rationals. The float returned by the '
-        'implementation is compared EXACTLY inside Coq with the model rational on inputs where every floating-point '
-        'operation is exact (classified conservatively by the harness from the input only); on all other inputs the '
-        'comparison is |impl - ref| <= 1e-9 * max(|ref|, max|x_i|) (std: |impl - sqrt(var)| <= 1e-9 * sqrt(var) + '
-        '1e-12 * max|x_i|, i.e. relative on the result plus the error a backward-stable evaluation cannot avoid), evaluated in '
+        'implementation is compared inside Coq with the L0 / L1 rational: EXACTLY on inputs where every floating-point '
+        'operation is exact (sum and mean of integers / dyadics whose partial sums stay below 2^53 units, min, max, '
+        'odd median, ...), WITHIN HALF A UNIT IN THE LAST PLACE of the returned float where the result is one '
+        'correctly rounded operation on exact operands (mean with exact partial sums, even median) -- both classified '
+        'conservatively by the harness from the input only; on all other inputs the '
+        'comparison is |impl - ref| <= min(1e-9 * max(|ref|, max|x_i|), B) with B the textbook rounding-error bound of '
+        'the statistic with a factor 2 in hand (sum: (n+1) 2^-52 sum|x_i|; mean: that / n + 2^-52 |ref|; median: '
+        '2^-50 max|x_i|; min/max: 2^-52 max|x_i|) (std: |impl - s| <= 1e-9 * s + 2 * min(1.5 d, d^2 / s), '
+        's = sqrt(var), d = n * 2^-52 * max|x_i|: relative on the result plus what the rounding of the mean in a '
+        'two-pass evaluation cannot avoid -- second order in max|x_i| unless the spread is below that rounding), evaluated in '
         'exact Fraction arithmetic on the Python side, where ref is a Fraction evaluation of the textbook formula '
         'that Coq checks to be EQUAL to the L0 (resp. L1) rational on every case, so the Coq value is what is compared',
+        'which cells are numeric (L0, Spec/Stats.v xcell_q): int, float, str, None as stored by the type check, and '
+        'for a MixedColumn also what BaseColumn._map (`col @ f`, map_) and BaseColumn._operate (column arithmetic) store '
+        'unchecked in their result columns, in slices / selections of those, and in a table column wherever '
+        'DataMatrix._set_col inserts such a column by reference (repaired in /repo during this session: a derived column '
+        'is now copied and type-checked): a NumPy integer or floating '
+        'scalar is a number (its value); a bool is a number (bool subclasses int: True = 1, False = 0 -- it can only '
+        'reach a column as the unchecked result of a mapped function); a Fraction and a finite Decimal are numbers '
+        '(exact rational value; the L1 model leaves the model on them (MOut), the L0 oracle judges them). complex, '
+        'numpy.bool_ and other objects are not generated (outside the quantifier "finite numbers")',
         'cells are finite numbers, strings, None, NaN; a column holding an infinity is outside the quantifier '
         '(BaseColumn._nanorinf drops +inf but not -inf; NumPy keeps both): only unique/count are judged there',
         'sum of a column without numbers is left open by the property text (MixedColumn: NaN, non-empty numeric '
@@ -217,77 +636,30 @@ class C12:
         'a MixedColumn sees ints through float(): the refinement and kind-agreement theorems carry the premise '
         '|z| < 2^53 for int cells; NaN entries of MixedColumn.unique are not modelled (set() compares NaN objects '
         'by identity), as the property speaks about non-NaN values',
+        'an exception raised by a BUILDING step of a program (not by reading a statistic) is not a C12 observation: '
+        'the generator only emits programs that ran on the tree under test; a reading that raises is a violation',
     ]
 
-    # ---- implementation runner ------------------------------------------
-    def _observe(self, kind, vals, edits=()):
-        from datamatrix import DataMatrix
-        with warnings.catch_warnings():
-            warnings.simplefilter('ignore')
-            dm = DataMatrix(length=len(vals))
-            dm.k = list(range(len(vals)))
-            dm.c = coltype(kind)
-            if vals:
-                dm.c = list(vals)
-            col = dm.c
-            for path, where, v in edits:
-                # the statistics are read before every modification: they must describe the CURRENT cells afterwards
-                for s in STATS:
-                    float(getattr(col, ATTR[s]))
-                col.unique, col.count
-                if path == 'int':
-                    col[where] = v
-                elif path == 'slice':
-                    col[where[0]:where[1]] = v
-                elif path == 'list':
-                    col[list(where)] = v
-                elif path == 'sel':
-                    col[dm.k >= where] = v
-                elif path == 'row':
-                    dm[where].c = v
-                elif path == 'whole':
-                    dm.c = [v] * len(vals)
-                    col = dm.c
-                else:
-                    raise AssertionError(path)
-            cells = [plain(x) for x in col]
-            obs = {}
-            for s in STATS:
-                obs[s] = float(getattr(col, ATTR[s]))
-            u = [plain(x) for x in col.unique]
-            cnt = int(col.count)
-        return cells, obs, u, cnt
-
-    def rerun(self, inp):
-        kind = inp['kind']
-        vals = dec_list(inp['vals'])
-        edits = [(e[0], e[1], pyobs.dec(e[2])) for e in inp.get('edits', [])]
-        try:
-            cells, obs, u, cnt = self._observe(kind, vals, edits)
-        except Exception as e:      # noqa: BLE001  -- the generator only builds admissible columns
-            if inp.get('may_reject'):
-                return None
-            return {'input': {k: v for k, v in inp.items() if k != 'may_reject'}, 'observed': {'exception': repr(e)},
-                    'pyfail': 'reading the statistics of an admissible column raised %r' % (e,),
-                    'oracle': 'true', 'model': 'true', 'nontrivial': True,
-                    'sig': 'exc|%s|%r' % (kind, inp['vals']), 'tags': list(inp.get('tags', [])) + [kind, 'raised']}
-        scope = not any(type(c) is float and math.isinf(c) for c in cells)
+    # ---- judging one reading ------------------------------------------------
+    def judge(self, kind, cells, obs, u, cnt, cross):
+        scope = not any(cell_inf(c) for c in cells)
         l0 = nums_l0(cells)
         l1 = nums_l1(kind, cells)
-        pyfail = []
-        o_items, m_items, verdict = [], [], []
-        n_exact = 0
+        pyfail, verdict = [], []
+        o_items, m_items = [], []
+        n_exact = n_ulp = 0
         for s in STATS:
             x = obs[s]
             r0 = textbook(s, l0)
             r1 = textbook(s, l1)
-            e0 = exact_flag(s, l0)
-            e1 = exact_flag(s, l1)
+            e0 = mode_of(s, l0)
+            e1 = mode_of(s, l1)
             if s == 'Sum' and not l1:
                 r1 = None if (kind == 'KMixed' or not cells) else Fraction(0)
-            n_exact += bool(e0 and r0 is not None)
-            o_items.append('(%s, %s, %s, %s)' % (s, claim(r0), L.fl(x), L.boolean(e0)))
-            m_items.append('(%s, %s, %s, %s)' % (s, claim(r1), L.fl(x), L.boolean(e1)))
+            n_exact += bool(e0 == 'MExact' and r0 is not None)
+            n_ulp += bool(e0 == 'MHalfUlp' and r0 is not None)
+            o_items.append('(%s, %s, %s, %s)' % (s, claim(r0), L.fl(x), e0))
+            m_items.append('(%s, %s, %s, %s)' % (s, claim(r1), L.fl(x), e1))
             if not scope:
                 continue
             if r0 is None or (s == 'Sum' and not l0):
@@ -297,22 +669,26 @@ class C12:
             if math.isnan(x) or math.isinf(x):
                 verdict.append(s)
                 continue
-            if e0:
+            if e0 == 'MExact':
                 ok = (Fraction(x) == r0) if s != 'Var' else (x >= 0 and Fraction(x) ** 2 == r0)
                 if not ok:
                     verdict.append(s)
+            elif e0 == 'MHalfUlp' and not half_ulp_ok(x, r0):
+                verdict.append(s)
             elif not within(s, x, r0, l0):
                 verdict.append(s)
                 pyfail.append('%s: implementation returned %r, textbook value %s (= %.17g%s) differs by more than '
-                              '1e-9 relative' % (ATTR[s], x, r0, math.sqrt(r0) if s == 'Var' else float(r0),
+                              'the tolerance (at most 1e-9 relative)' % (ATTR[s], x, r0, math.sqrt(r0) if s == 'Var' else float(r0),
                                                  ', root of the variance' if s == 'Var' else ''))
-        if inp.get('cross') and scope:
+        if cross and scope:
             # the same numbers in the other column types: the implementations must agree with each other as well
             numsonly = [c for c in cells if is_num(c)]
+            plainable = all(type(c) in (int, float, str) or c is None for c in cells)
             others = [k for k in KINDS if k != kind and (k != 'KInt' or all(type(c) is int for c in numsonly))]
-            for k2 in others:
+            for k2 in others if plainable else []:
                 try:
-                    cells2, obs2, _u2, _c2 = self._observe(k2, numsonly if k2 == 'KInt' else [plain(c) for c in cells])
+                    rd = run_program(k2, numsonly if k2 == 'KInt' else list(cells), [])
+                    _k, cells2, obs2, _u2, _c2 = rd[-1]
                 except Exception as e:      # noqa: BLE001
                     pyfail.append('%s holding the same cells raised %r' % (k2, e))
                     continue
@@ -329,27 +705,92 @@ class C12:
                             ATTR[s], kind, a, k2, b, math.sqrt(r0) if s == 'Var' else float(r0)))
         cl = cells_lit(cells)
         ul = cells_lit(u)
-        n_junk = len(cells) - len(l0)
-        tags = list(inp.get('tags', [])) + [kind, 'len%02d' % min(len(cells), 40) if len(cells) < 13 else 'len13+',
-                                            'numbers%d' % min(len(l0), 3) if len(l0) < 3 else 'numbers3+']
+        reading = '(%s, %s, %s, %s)' % (cl, L.lst(o_items), ul, L.z(cnt))
+        mreading = '(%s, (%s, %s, %s, %s))' % (kind, cl, L.lst(m_items), ul, L.z(cnt))
+        return {'oracle': reading, 'model': mreading, 'pyfail': pyfail, 'verdict': verdict, 'scope': scope,
+                'n_exact': n_exact, 'n_ulp': n_ulp, 'l0': l0}
+
+    # ---- implementation runner ------------------------------------------
+    def rerun(self, inp):
+        kind = inp['kind']
+        vals = dec_list(inp['vals'])
+        prog = inp.get('prog', [])
+        tags = list(inp.get('tags', []))
+        keep = {k: v for k, v in inp.items() if k != 'may_reject'}
+        try:
+            readings = run_program(kind, vals, prog)
+        except Unclassified:
+            return None
+        except ReadFailed as e:
+            if inp.get('may_reject'):
+                return None
+            return {'input': keep, 'observed': {'exception': str(e)},
+                    'pyfail': str(e), 'oracle': 'true', 'model': 'true', 'nontrivial': True,
+                    'sig': 'exc|%s|%r|%r' % (kind, inp['vals'], prog), 'tags': tags + [kind, 'read-raised']}
+        except Exception as e:      # noqa: BLE001 -- a building step raised: not an observation about the statistics
+            if inp.get('may_reject') or inp.get('building'):
+                return None
+            return {'input': keep, 'observed': {'build_exception': repr(e)},
+                    'pyfail': None, 'oracle': 'true', 'model': 'true', 'nontrivial': False,
+                    'sig': 'bexc|%s|%r|%r' % (kind, inp['vals'], prog), 'tags': tags + [kind, 'build-raised']}
+        try:
+            js = [self.judge(k, cells, obs, u, cnt, bool(inp.get('cross')) and i == len(readings) - 1)
+                  for i, (k, cells, obs, u, cnt) in enumerate(readings)]
+        except Unclassified:
+            return None
+        except (OverflowError, ValueError, ZeroDivisionError) as e:   # the reference evaluation left its range: not judged, but counted
+            return {'input': keep, 'observed': {'unjudged': repr(e)}, 'pyfail': None, 'oracle': 'true', 'model': 'true',
+                    'nontrivial': False, 'sig': 'unjudged|%s|%r|%r' % (kind, inp['vals'], prog),
+                    'tags': tags + [kind, 'harness-unjudged']}
+        kf, cells, obs, u, cnt = readings[-1]
+        last = js[-1]
+        pyfail = [p if i == len(js) - 1 else 'reading %d of %d (cells %r): %s' % (i + 1, len(js), readings[i][1][:12], p)
+                  for i, j in enumerate(js) for p in j['pyfail']]
+        verdict = []
+        for i, j in enumerate(js):
+            for s in j['verdict']:
+                verdict.append(s if i == len(js) - 1 else '%s@reading%d' % (s, i + 1))
+        n_junk = len(cells) - len(last['l0'])
+        tags += [kf, 'len%02d' % len(cells) if len(cells) < 13 else 'len13+',
+                 'numbers%d' % len(last['l0']) if len(last['l0']) < 3 else 'numbers3+']
         if n_junk:
             tags.append('with-ignored-cells')
-        if not scope:
+        if not all(j['scope'] for j in js):
             tags.append('out-of-quantifier')
-        if n_exact:
+        if any(j['n_exact'] for j in js):
             tags.append('some-exact')
+        if any(j['n_ulp'] for j in js):
+            tags.append('some-half-ulp')
+        if len(readings) > 1:
+            tags.append('readings%d' % len(readings))
+        for c in cells:
+            if type(c) is bool:
+                tags.append('cell:bool')
+            elif isinstance(c, np.integer):
+                tags.append('cell:np-int')
+            elif isinstance(c, np.floating):
+                tags.append('cell:np-float')
+            elif type(c) in (Fraction, Decimal):
+                tags.append('cell:' + type(c).__name__)
+        for op in prog:
+            tags.append('op:' + op[0] + (':' + str(op[1]) if op[0] in ('set', 'map', 'map_', 'mapfree') else ''))
+        if any(op[0] in ('mapfree', 'farith', 'colslice', 'colrows', 'colsel') for op in prog):
+            tags.append('free-column')
+        tags = sorted(set(tags), key=tags.index)
         return {
-            'input': dict({'kind': kind, 'vals': inp['vals'], 'tags': inp.get('tags', [])},
-                          **dict(({'edits': inp['edits']} if inp.get('edits') else {}),
-                                 **({'cross': True} if inp.get('cross') else {}))),
-            'observed': {'cells': enc_list(cells), 'stats': {ATTR[s]: obs[s].hex() for s in STATS},
-                         'unique': enc_list(u), 'count': cnt, 'py_verdict': verdict},
+            'input': keep,
+            'observed': {'kind': kf, 'cells': [enc_cell(c) for c in cells],
+                         'stats': {ATTR[s]: obs[s].hex() for s in STATS},
+                         'unique': [enc_cell(c) for c in u], 'count': cnt, 'py_verdict': verdict,
+                         'earlier_readings': [{'kind': k, 'cells': [enc_cell(c) for c in cl],
+                                               'stats': {ATTR[s]: ob[s].hex() for s in STATS}}
+                                              for k, cl, ob, _u, _c in readings[:-1]]},
             'pyfail': '; '.join(pyfail) if pyfail else None,
-            'oracle': 'oracle %s %s %s %s' % (cl, L.lst(o_items), ul, L.z(cnt)),
-            'model': 'model_agrees %s %s %s %s %s' % (kind, cl, L.lst(m_items), ul, L.z(cnt)),
-            'aux': 'in_scope %s' % cl,
-            'nontrivial': len(l0) >= 2 or n_junk > 0,
-            'sig': '%s|%r|%r' % (kind, cells, [(e[0], e[1]) for e in inp.get('edits', [])]),
+            'oracle': 'oracle_seq %s' % L.lst([j['oracle'] for j in js]),
+            'model': 'model_seq %s' % L.lst([j['model'] for j in js]),
+            'aux': 'in_scope_seq %s' % L.lst([j['oracle'] for j in js]),
+            'nontrivial': len(last['l0']) >= 2 or n_junk > 0,
+            'sig': '%s|%r|%r' % (kind, [[(type(c).__name__, c) for c in r[1]] for r in readings], prog),
             'tags': tags,
         }
 
@@ -390,6 +831,19 @@ class C12:
                     out.insert(rng.randrange(len(out) + 1), rng.choice(out))
         return out
 
+    def modest(self, rng, kind, maxlen=8):
+        """a short list of modest numbers for the program families (so that arithmetic steps stay in range)"""
+        n = rng.choice([2, 3, 3, 4, 4, 5, 5, 6, 7, maxlen])
+        mix = rng.choice([['small'], ['small'], ['medium'], ['small', 'medium']] +
+                         ([] if kind == 'KInt' else [['small', 'dyadic'], ['decimal'], ['dyadic', 'medium'], ['decimal', 'small']]))
+        out = [self.number(rng, rng.choice(mix)) for _ in range(n)]
+        if rng.random() < 0.4:
+            out[rng.randrange(n)] = out[rng.randrange(n)]
+        if kind != 'KInt':
+            for _ in range(rng.choice([0, 0, 1, 2])):
+                out.insert(rng.randrange(len(out) + 1), self.junk(rng, kind))
+        return out
+
     def junk(self, rng, kind):
         r = rng.random()
         if r < 0.4:
@@ -406,11 +860,171 @@ class C12:
             outs.append(c)
         return outs
 
-    def case(self, kind, vals, tags, may_reject=False):
+    def case(self, kind, vals, tags, may_reject=False, prog=None, cross=False):
         inp = {'kind': kind, 'vals': enc_list(vals), 'tags': tags}
+        if prog:
+            inp['prog'] = prog
+        if cross:
+            inp['cross'] = True
         if may_reject:
             inp['may_reject'] = True
         return self.rerun(inp)
+
+    # ---- programs -----------------------------------------------------------
+    def value_for(self, rng, kind):
+        return rng.choice([0, 1000, -3, rng.randint(-50, 50)] + ([] if kind == 'KInt' else [2.5, float('nan'), None, 'zz']))
+
+    def pick(self, rng, r, family):
+        """one admissible step for the current state of the runner r; family in derive | mutate | detach"""
+        n = len(r.dm)
+        col = r.wcol()
+        kind = kind_of(col)
+        enc = pyobs.enc
+        if family in ('detach', 'free'):
+            # free columns: the result of `col @ f`, of column arithmetic, a column slice / selection -- never inserted
+            # into the table, so their cells keep the type the operation produced
+            n = len(r.rcol())
+            o = rng.choice(['mapfree', 'mapfree', 'colslice', 'colrows', 'colsel', 'farith', 'farith'] +
+                           (['set', 'set', 'set'] if family == 'free' else []))
+            if o == 'mapfree':
+                return ['mapfree', rng.choice(EXOTIC + EXOTIC + PLAINF[:3])]
+            if o == 'colslice':
+                a = rng.randint(0, n)
+                return ['colslice', a, rng.randint(a, n)]
+            if o == 'colrows':
+                return ['colrows', [rng.randrange(n) for _ in range(rng.randint(0, n))] if n else []]
+            if o == 'colsel':
+                return ['colsel', rng.randint(0, max(n - 1, 0))]
+            if o == 'farith':
+                if kind == 'KInt' and not all(abs(int(x)) < 2 ** 40 for x in r.rcol()):
+                    return ['colslice', 0, n]
+                opn = rng.choice(['+', '-', '*'])
+                x = rng.choice([np.int64(2), np.int64(-1), np.int32(3), np.float64(0.5), np.float32(1.5), Fraction(1, 3),
+                                Fraction(2), True, 1, 2, 0.5])
+                return ['farith', opn, rng.choice(['l', 'r']), enc_x(x)]
+            path = rng.choice(['int', 'slice', 'list', 'sel', 'all', 'allk', 'array']) if n else 'all'
+            v = self.value_for(rng, kind)
+            if path == 'array' and type(v) not in (int, float):
+                v = 7
+            if path == 'int':
+                where = rng.randrange(n)
+            elif path == 'slice':
+                a = rng.randrange(n)
+                where = [a, rng.randint(a + 1, n)]
+            elif path == 'list':
+                where = sorted(rng.sample(range(n), rng.randint(1, min(3, n))))
+            elif path == 'sel':
+                where = rng.randint(0, n)
+            else:
+                where = 0
+            return ['set', path, where, enc(v)]
+        ks = sorted(int(x) for x in r.dm.k)
+        thr = rng.choice(ks) if ks else 0
+        small_int = kind != 'KInt' or all(abs(int(x)) < 2 ** 40 for x in col)
+        derive = ['select', 'select', 'setop', 'sort', 'shuffle', 'slice', 'rows', 'resize', 'resize', 'concat', 'concat',
+                  'delrow', 'rename', 'alias', 'copy', 'map', 'map', 'map_', 'arith', 'iop', 'replace']
+        mutate = ['set', 'set', 'set', 'set', 'resize', 'resize', 'resize', 'delrow', 'delrow', 'whole', 'wholescalar',
+                  'wholecol', 'iop', 'iop', 'arith', 'rename', 'alias', 'alias', 'concat', 'replace', 'map', 'select',
+                  'sort', 'shuffle', 'slice', 'setop', 'recreate', 'retype']
+        o = rng.choice(derive if family == 'derive' else mutate)
+        if o == 'select':
+            return ['select', thr, rng.choice(['ge', 'lt'])]
+        if o == 'setop':
+            return ['setop', rng.choice(['|', '&', '^']), thr, rng.choice(ks) if ks else 0]
+        if o == 'sort':
+            return ['sort', rng.choice(['c', 'k'])]
+        if o == 'shuffle':
+            return ['shuffle', rng.randrange(1000)]
+        if o == 'slice':
+            a = rng.randint(0, n)
+            return ['slice', a, rng.randint(a, n)]
+        if o == 'rows':
+            return ['rows', [rng.randrange(n) for _ in range(rng.randint(1, n))] if n else []]
+        if o == 'resize':
+            return ['resize', max(0, n + rng.choice([1, 2, 3, 1, 2, -1, -2, -n]))]
+        if o == 'concat':
+            v2 = self.modest(rng, kind, 4)
+            f2 = rng.choice([None, None] + EXOTIC) if kind == 'KMixed' else None
+            return ['concat', enc_list(v2), f2, rng.choice(['after', 'after', 'before'])]
+        if o == 'delrow':
+            return ['delrow', rng.randrange(n)] if n else ['copy']
+        if o == 'rename':
+            return ['rename', rng.choice(['d', 'e', 'renamed'])]
+        if o == 'alias':
+            return ['alias', rng.choice(['b', 'z']), rng.choice(['read-alias', 'write-alias'])]
+        if o == 'copy':
+            return ['copy']
+        if o in ('map', 'map_'):
+            return [o, rng.choice(EXOTIC if rng.random() < 0.7 else PLAINF)]
+        if o in ('arith', 'iop'):
+            if not small_int:
+                return ['copy']
+            opn = rng.choice(['+', '-', '*'] + (['/'] if kind != 'KInt' else []))
+            x = rng.choice([1, 2, 3, -1, 10, np.int64(2)] + ([] if kind == 'KInt' else [0.5, 2.0, np.float64(0.5), Fraction(1, 2)]))
+            if o == 'iop':
+                return ['iop', opn, enc_x(x)]
+            return ['arith', opn, 'l' if opn == '/' else rng.choice(['l', 'r']), enc_x(x)]
+        if o == 'replace':
+            cands = [x for x in col if type(x) in (int, float) and x == x]
+            return ['replace', enc(rng.choice(cands) if cands else 0), enc(self.value_for(rng, 'KInt'))]
+        if o == 'set':
+            path = rng.choice(['int', 'slice', 'list', 'sel', 'row', 'all', 'allk', 'array'])
+            v = self.value_for(rng, kind)
+            if n == 0 and path in ('int', 'row', 'list', 'slice'):
+                path = 'all'
+            if path == 'array' and type(v) not in (int, float):
+                v = 7
+            if path in ('int', 'row'):
+                where = rng.randrange(n)
+            elif path == 'slice':
+                a = rng.randrange(n)
+                where = [a, rng.randint(a + 1, n)]
+            elif path == 'list':
+                where = sorted(rng.sample(range(n), rng.randint(1, min(3, n))))
+            elif path == 'sel':
+                where = thr
+            else:
+                where = 0
+            return ['set', path, where, enc(v)]
+        if o == 'whole':
+            return ['whole', enc_list([self.value_for(rng, kind) for _ in range(n)])]
+        if o == 'wholescalar':
+            return ['wholescalar', enc(self.value_for(rng, kind))]
+        if o == 'wholecol':
+            return ['wholecol', rng.choice(['ref', 'copy', 'derived'])]
+        if o == 'recreate':
+            k2 = rng.choice([kind, kind, 'KInt', 'KFloat', 'KMixed'])
+            return ['recreate', k2, enc_list([self.value_for(rng, k2) for _ in range(n)])]
+        if o == 'retype':
+            return ['retype', rng.choice(KINDS)]
+        raise AssertionError(o)
+
+    def program(self, rng, kind, vals, shape):
+        """build a program step by step on the implementation (so that every step is admissible in the state it is
+        applied to); returns the list of steps, or None when a step raised.
+        shape: list of families, 'read' entries are explicit readings"""
+        prog = []
+        with warnings.catch_warnings():
+            warnings.simplefilter('ignore')
+            try:
+                r = Runner(kind, vals)
+                for fam in shape:
+                    if fam == 'read':
+                        op = ['read']
+                    elif isinstance(fam, list):
+                        op = fam
+                    elif fam.startswith('map:'):
+                        op = ['map', fam[4:]]
+                    else:
+                        op = self.pick(rng, r, fam)
+                    r.apply(op)
+                    prog.append(op)
+                    if not INCLUDE_PENDING_FINDINGS and pending_finding_state(r.rcol()):
+                        return None
+                r.read()
+            except Exception:       # noqa: BLE001 -- not admissible on this tree (or outside the classified universe)
+                return None
+        return prog
 
     def generate(self, rng, tier):
         quick = tier == 'quick'
@@ -418,11 +1032,13 @@ class C12:
         cases = []
         seen = set()
 
-        def add(kind, vals, tags):
-            c = self.case(kind, vals, tags)
+        def push(c):
             if c is not None and c['sig'] not in seen:
                 seen.add(c['sig'])
                 cases.append(c)
+
+        def add(kind, vals, tags, prog=None, cross=False):
+            push(self.case(kind, vals, tags, prog=prog, cross=cross))
 
         # 1. small alphabet, all short lists
         alpha = [0, 1, -2, 2.5, float('nan'), 'a', None]
@@ -435,7 +1051,7 @@ class C12:
                 if all(type(v) is int for v in tup):
                     add('KInt', list(tup), ['alphabet'])
         # 2. random multisets x kinds x row orders
-        reps = 110 if quick else 1500
+        reps = 100 if quick else 1500
         maxlen = 12 if quick else 40
         for _ in range(reps):
             base = self.numbers(rng, maxlen)
@@ -475,10 +1091,18 @@ class C12:
             if all(type(v) is int for v in vals):
                 add('KInt', vals, ['exact-std'])
         # 6. large offset, small spread (ill-conditioned for one-pass variance formulas), all column types + agreement
+        fixed = [[10 ** 8 + d for d in (0, 1, 2, 3)], [100000001, 100000002, 100000003, 100000005],
+                 [1700000000000 + d for d in (1, 4, 9, 16, 25, 36)], [1700000000000.0 + d for d in (0.5, 1.0, 2.25, 7.0)],
+                 [-(2 ** 40) + d for d in (0, 3, 3, 7, 11)], [-(2 ** 40) - 0.5, -(2 ** 40) + 1, -(2 ** 40) + 2.5],
+                 [1e12, 1e12 + 1, 3, 4, 5], [2 ** 52, 2 ** 52 + 1, 2 ** 52 + 2], [1e15 + 2, 1e15 + 4, 1e15 + 8, 0.5],
+                 [1e8 + 0.1, 1e8 + 0.2, 1e8 + 0.3], [123456789012, 123456789013], [4e9, 4e9 + 1, 4e9 + 1, 4e9 + 2, -4e9]]
+        offs = []
+        for vals in fixed:
+            offs.append([int(v) if float(v).is_integer() and abs(v) < 2 ** 62 else float(v) for v in vals])
         for _ in range(45 if quick else 500):
-            off = rng.choice([10 ** 6, 10 ** 6, 10 ** 7, 10 ** 8, 10 ** 9, 10 ** 10, 10 ** 12]) * rng.choice([1, 1, 3, -1]) \
-                + rng.randint(0, 999)
-            spread = rng.choice([1, 2, 4, 10, 30, 100])
+            off = rng.choice([10 ** 6, 10 ** 6, 10 ** 7, 10 ** 8, 10 ** 9, 10 ** 10, 10 ** 12, 1700000000000, 2 ** 40]) \
+                * rng.choice([1, 1, 3, -1]) + rng.randint(0, 999)
+            spread = rng.choice([1, 2, 3, 4, 10, 30, 100])
             n = rng.randint(3, 8)
             if rng.random() < 0.5:
                 vals = [off + rng.randint(0, spread) for _i in range(n)]
@@ -487,8 +1111,13 @@ class C12:
                 vals = [int(v) if v.is_integer() else v for v in vals]
             if rng.random() < 0.5:
                 vals[rng.randrange(n)] = vals[rng.randrange(n)]        # a repeat
+            if rng.random() < 0.15:
+                vals[rng.randrange(n)] = rng.choice([0, 1, -5, 2.5])   # mixed magnitudes
             if max(vals) == min(vals):
                 vals[0] = vals[0] + 1
+            offs.append(vals)
+        for vals in offs:
+            n = len(vals)
             allint = all(type(v) is int for v in vals)
             for kind in KINDS:
                 if kind == 'KInt' and not allint:
@@ -496,41 +1125,45 @@ class C12:
                 v2 = list(vals)
                 if kind != 'KInt' and rng.random() < 0.3:
                     v2.insert(rng.randrange(n + 1), self.junk(rng, kind))
-                c = self.rerun({'kind': kind, 'vals': enc_list(v2), 'tags': ['offset-spread'], 'cross': kind == 'KMixed'})
-                if c is not None and c['sig'] not in seen:
-                    seen.add(c['sig'])
-                    cases.append(c)
-        # 5. statistics read, column modified through each write path, statistics read again
-        for _ in range(120 if quick else 1200):
-            base = self.numbers(rng, 8)
-            if len(base) < 2:
-                continue
-            kind = rng.choice(KINDS)
-            if kind == 'KInt':
-                base = [int(v) if abs(v) < 2 ** 58 else 7 for v in base]
-            elif rng.random() < 0.5:
-                base.insert(rng.randrange(len(base) + 1), self.junk(rng, kind))
-            n = len(base)
-            edits = []
-            for _e in range(rng.choice([1, 1, 2, 3])):
-                path = rng.choice(['int', 'slice', 'list', 'list', 'sel', 'sel', 'row', 'whole'])
-                v = rng.choice([0, 1000, -3, rng.randint(-50, 50)] + ([] if kind == 'KInt' else [2.5, float('nan'), None, 'zz']))
-                if path in ('int', 'row'):
-                    where = rng.randrange(n)
-                elif path == 'slice':
-                    a = rng.randrange(n)
-                    where = [a, rng.randint(a + 1, n)]
-                elif path == 'list':
-                    where = sorted(rng.sample(range(n), rng.randint(1, min(3, n))))
-                elif path == 'sel':
-                    where = rng.randrange(n)
-                else:
-                    where = 0
-                edits.append([path, where, pyobs.enc(v)])
-            c = self.rerun({'kind': kind, 'vals': enc_list(base), 'edits': edits, 'tags': ['edited']})
-            if c is not None and c['sig'] not in seen:
-                seen.add(c['sig'])
-                cases.append(c)
+                add(kind, v2, ['offset-spread'], cross=kind == 'KMixed')
+        # 7. columns whose cells were stored without the type check: mapped (NumPy scalars, Fractions, Decimals, bools),
+        #    then derived further; a single final reading
+        for i in range(220 if quick else 2200):
+            kind = 'KMixed' if rng.random() < 0.8 else rng.choice(['KFloat', 'KInt'])
+            vals = self.modest(rng, kind)
+            f = EXOTIC[i % len(EXOTIC)]
+            mf = ['mapfree', f]
+            shape = rng.choice([[mf], [mf], [mf], ['derive', mf], ['derive', 'derive', mf], [mf, 'free'], [mf, 'free'],
+                                [mf, 'free', 'free'], ['derive', mf, 'free'], ['detach'], ['detach', 'free'],
+                                ['derive', 'detach', 'free'], ['map:' + f], ['map:' + f, 'derive'],
+                                ['derive', 'map:' + f, 'derive', 'detach'], ['derive', 'derive'],
+                                ['derive', 'derive', 'derive', 'detach']])
+            prog = self.program(rng, kind, vals, shape)
+            if prog is not None:
+                add(kind, vals, ['unchecked-cells'], prog=prog)
+        # 5. statistics read, column modified through each route, statistics read again (every reading is judged)
+        for i in range(260 if quick else 2600):
+            kind = KINDS[i % 3]
+            vals = self.modest(rng, kind)
+            if kind == 'KInt' and rng.random() < 0.3:
+                vals = [v for v in vals if v != 0] or [4, 8]          # grown IntColumn cells are 0: make them matter
+            k = rng.choice([1, 1, 1, 2, 2, 3])
+            shape = []
+            if kind == 'KMixed' and rng.random() < 0.3:
+                shape.append('map:' + rng.choice(EXOTIC))
+            elif rng.random() < 0.2:
+                shape.append('derive')
+            for _e in range(k):
+                shape += ['read', 'mutate']
+            if rng.random() < 0.15:
+                shape += ['read', 'detach']
+            if rng.random() < 0.2:        # the same on a free column: read, write cells of it, read again
+                shape = [['mapfree', rng.choice(EXOTIC)]] if kind == 'KMixed' else ['detach']
+                for _e in range(k):
+                    shape += ['read', 'free']
+            prog = self.program(rng, kind, vals, shape)
+            if prog is not None:
+                add(kind, vals, ['read-modify-read'], prog=prog)
         # 4. outside the quantifier: infinities
         for _ in range(30 if quick else 300):
             base = self.numbers(rng, 6)
@@ -546,7 +1179,6 @@ class C12:
         even/odd, neighbours of the median index), then the thorough generator"""
         out = []
         seen = set()
-        import itertools
         for n in range(0, 6):
             for _ in range(60):
                 vals = [rng.choice([0, 1, 2, 3, 5, 8, -7, 2.5, 10]) for _i in range(n)]
@@ -565,38 +1197,35 @@ class C12:
 
     def shrink_candidates(self, inp):
         vals = inp['vals']
+        prog = inp.get('prog', [])
         base = {'kind': inp['kind'], 'tags': inp.get('tags', []), 'may_reject': True}
         if inp.get('cross'):
             base['cross'] = True
-        if inp.get('edits'):
-            ed = inp['edits']
-            for i in range(len(ed)):
-                yield dict(base, vals=vals, edits=ed[:i] + ed[i + 1:])
-            for i, e in enumerate(ed):
-                if pyobs.dec(e[2]) != 1000:
-                    yield dict(base, vals=vals, edits=ed[:i] + [[e[0], e[1], pyobs.enc(1000)]] + ed[i + 1:])
-            for i, v in enumerate(vals):
-                if pyobs.dec(v) != 1:
-                    yield dict(base, vals=vals[:i] + [pyobs.enc(1)] + vals[i + 1:], edits=ed)
-            return
+        for i in range(len(prog)):                      # drop a step (a reading or a modification)
+            yield dict(base, vals=vals, prog=prog[:i] + prog[i + 1:])
+        for i, op in enumerate(prog):                   # simpler written values
+            if op[0] == 'set' and pyobs.dec(op[3]) != 1000:
+                yield dict(base, vals=vals, prog=prog[:i] + [op[:3] + [pyobs.enc(1000)]] + prog[i + 1:])
         for i in range(len(vals)):
-            yield dict(base, vals=vals[:i] + vals[i + 1:])
+            yield dict(base, vals=vals[:i] + vals[i + 1:], prog=prog)
         for i, v in enumerate(vals):
             d = pyobs.dec(v)
             if is_num(d) and d not in (0, 1, 2, 3):
                 for small in (0, 1, 2, 3, int(d) if abs(d) < 1e6 else 5):
                     if small != d:
-                        yield dict(base, vals=vals[:i] + [pyobs.enc(small)] + vals[i + 1:])
-        if inp['kind'] != 'KMixed':
+                        yield dict(base, vals=vals[:i] + [pyobs.enc(small)] + vals[i + 1:], prog=prog)
+        if inp['kind'] != 'KMixed' and not prog:
             yield dict(base, kind='KMixed', vals=vals)
 
     def key(self, case):
         o = case.get('observed') or {}
-        cells = [d.get('v', d['t']) for d in o.get('cells', [])]
-        ed = case['input'].get('edits')
+        cells = [str(d.get('v', d['t'])) + ('' if d['t'] in ('int', 'float', 'str', 'none') else ':' + d.get('dtype', d['t']))
+                 for d in o.get('cells', [])]
+        prog = case['input'].get('prog')
         return 'stats kind=%s cells=%s%s failing=%s' % (
-            case['input']['kind'], ','.join(map(str, cells)),
-            (' after-edits=' + ';'.join(e[0] for e in ed)) if ed else '',
+            o.get('kind', case['input']['kind']), ','.join(cells),
+            (' program=' + ';'.join(op[0] + (':' + str(op[1]) if op[0] in ('set', 'map', 'map_', 'mapfree') else '')
+                                    for op in prog)) if prog else '',
             ','.join(o.get('py_verdict', [])) or 'unique/count/coq-side')
 
 
